@@ -1,0 +1,10 @@
+//go:build !verif
+
+package scheduler
+
+import "time"
+
+// Verification hooks are compiled out unless the `verif` build tag is set.
+func verifPoint(string, *Node)                 {}
+func verifTrace(string, *Node)                 {}
+func verifPause(d time.Duration) time.Duration { return d }
